@@ -1059,7 +1059,22 @@ pub fn c14_oracle(plan: &Plan, rr: &RunResult, o: &mut Outcome) {
                     };
                     let mask = refc::scb(&(z - c * mval)).to_vec();
                     if mask[..] == *t.atom_bytes(zi) {
-                        // hidden value 0: the response is the mask and discloses nothing
+                        // hidden value 0: the response is the mask and by itself discloses nothing;
+                        // but the same mask under two different hidden values (two digit slots
+                        // carrying byte-identical proofs) still tells the merchant they are equal
+                        match by_mask.get(&mask) {
+                            Some((other, oclass)) if *oclass != class || class == "digit" => {
+                                o.violate(
+                                    "mask-shared-between-hidden-values",
+                                    &format!("{}:{}", kind_site, strip_idx(&zpath)),
+                                    format!("channel {} payment {}: {} ({}) and {} ({}) are masked by the same commitment scalar (both hidden values are zero, and the merchant learns it)", ev.chan, ev.pay, zpath, class, other, oclass),
+                                );
+                            }
+                            _ => {
+                                by_mask.insert(mask.clone(), (zpath.clone(), class));
+                            }
+                        }
+                        o.bump("probe.zero_hidden_value_in_proof");
                         continue;
                     }
                     checked += 1;
